@@ -7,6 +7,7 @@ import (
 	"encoding/binary"
 	"fmt"
 	"os"
+	"runtime/debug"
 	"sort"
 	"strings"
 
@@ -133,11 +134,14 @@ type KnownHit struct {
 
 // Result of one run.
 type Result struct {
-	Fail     *Failure
-	Known    []KnownHit
-	Counters map[string]int
-	Evals    int
-	Shape    string
+	// AliasPossible: the same value was written under the same key into two different child
+	// tries, so two child tries may have had identical content (precondition of C08-K3)
+	AliasPossible bool
+	Fail          *Failure
+	Known         []KnownHit
+	Counters      map[string]int
+	Evals         int
+	Shape         string
 }
 
 type runner struct {
@@ -187,14 +191,36 @@ var trace = os.Getenv("RTS_TRACE") != ""
 
 // Run executes ops on a fresh TrieState over an empty in-memory trie and
 // compares every observable with the model after every step.
-func Run(ops []Op, version int, isOpen func(id string) bool) *Result {
-	res := &Result{Counters: map[string]int{}}
+func Run(ops []Op, version int, isOpen func(id string) bool) (res *Result) {
+	res = &Result{Counters: map[string]int{}}
 	tr := inmemory.NewEmptyTrie()
 	ts := storage.NewTrieState(tr)
 	if version == 1 {
 		ts.SetVersion(trie.V1)
 	}
 	r := &runner{ts: ts, m: NewModel(), version: version, res: res, rootsDirty: true, openKnown: isOpen, step: -1}
+	written := map[string]string{}
+	for _, o := range ops {
+		if o.K == OpCSet {
+			if c, ok := written[o.Key+"\x00"+o.Val]; ok && c != o.C {
+				res.AliasPossible = true
+			}
+			written[o.Key+"\x00"+o.Val] = o.C
+		}
+	}
+	defer func() {
+		if p := recover(); p != nil {
+			st := string(debug.Stack())
+			if i := strings.Index(st, "panic("); i > 0 {
+				st = st[i:]
+			}
+			if len(st) > 3000 {
+				st = st[:3000]
+			}
+			res.Fail = &Failure{Class: "panic", Msg: fmt.Sprintf("%v\n%s", p, st), Step: r.step}
+			res.Shape = r.shape.String()
+		}
+	}()
 	r.observe()
 	for i, o := range ops {
 		if res.Fail != nil {
@@ -520,6 +546,7 @@ func dump(m *vcommon.OrdMap) string {
 }
 
 const (
+	K3 = "C08-K3" // pkg/trie/inmemory keeps child tries in a map keyed by root hash: identical children alias
 	K1 = "C08-K1" // limited clear in a transaction: one sorted pass, overlay upserts beyond the cut survive / are uncharged
 	K2 = "C08-K2" // limited clear in a transaction: allDeleted compared against every overlay upsert of the namespace
 )
